@@ -2,6 +2,7 @@ import WitnessVerif.Model.Bastion
 import WitnessVerif.Props.C04
 import WitnessVerif.Generated.Facts
 import WitnessVerif.Proofs.Frame
+import WitnessVerif.Proofs.BastionRun
 /-
 C10 — the bastion add-checkpoint endpoint speaks the tlog-witness protocol.
 Theorems over `Bastion.serve` (the model of `ServeHTTP` + `handleUpdate` with the model of the real
@@ -165,5 +166,24 @@ theorem C10_body_cap (cap : Nat) (w : Cfg) (h : HCfg) (store : Store) (body : By
 
 /-- the cap regenerated from connectAndServe is the 16 KiB the protocol documents -/
 theorem C10_cap_is_16KiB : Facts.maxBodyBytes = 16 * 1024 := by decide
+
+end C10
+
+namespace C10
+open Wit Bastion
+
+/-- The endpoint is only a front: over any session (any sequence of limiter answers and request bodies,
+    well-formed or not), `Update` is invoked exactly for the requests that parse, name a configured origin and
+    were let through, with exactly the parsed arguments; the witness state moves as the sequential witness
+    moves on those requests, and nothing else (a 400, 404 or 429 leaves it where it was). -/
+theorem C10_session_is_witness_run (w : Cfg) (h : HCfg) (ps : List (Bool × Bytes)) (s : Store) :
+    (session w h s ps).1 = (run w s (ps.filterMap (asked h))).1 ∧
+    (∀ p store, (serve w h store p.1 p.2).2 = (asked h p).map (fun r => (step w store r).2)) ∧
+    (∀ p store, asked h p = none → (post w h store p).1 = store) :=
+  ⟨session_store w h ps s, fun p store => serve_out w h store p, fun p store ha => by unfold post; simp [ha]⟩
+
+/-- a request the limiter turned away is not processed: it asks nothing of the witness -/
+theorem C10_rate_limited_not_processed (h : HCfg) (body : Bytes) : asked h (false, body) = none := by
+  unfold asked; simp
 
 end C10
